@@ -152,4 +152,19 @@ example : (ATree.popIterate 1 exA.root (exSt exA).ctx).1.map (·.pay) =
     [.val 21, .val 20, .val 11, .val 10, .val 3, .val 2, .val 1, .val 0] := by rfl
 example : (ATree.popIterate 1 exA.root (exSt exA).ctx).2.2.eff = [.remove ⟨1, 4⟩, .remove ⟨1, 3⟩, .remove ⟨1, 2⟩] := by rfl
 
+/-- `Array.PopIterate` at the top level: the elements last to first, every slab below the root removed, the root replaced
+    by an EMPTY root data slab under the same identifier, which is stored -/
+theorem Sl_Array_PopIterate_heap_ex :
+    (TransSl.Array_PopIterate (envH 256) 1 (trArrH exA (exSt exA)) []).map
+        (fun r => (r.1, r.2.1.root, r.2.1.Storage.ctx, exIds.map r.2.1.Storage.heap, r.2.2)) =
+      (let r := exA.popIterate (exSt exA).ctx
+       some (none, some (trTree r.2.1.d r.2.1.root), r.2.2, exIds.map (heapOf r.2.1.d r.2.1.root), r.1.map some)) := by rfl
+example : (exA.popIterate (exSt exA).ctx).2.2.eff = [.remove ⟨1, 4⟩, .remove ⟨1, 3⟩, .remove ⟨1, 2⟩, .store ⟨1, 1⟩] := by rfl
+
+/-- the descent targets are in the table of the translator (and translated: `Sl_all_translated`) -/
+theorem Sl_descent_targets :
+    ["ArrayMetaDataSlab_Get", "ArrayMetaDataSlab_Set", "ArrayMetaDataSlab_Insert", "ArrayMetaDataSlab_Remove",
+     "ArrayMetaDataSlab_PopIterate", "Array_Count", "Array_Get", "Array_set", "Array_Insert", "Array_Append",
+     "Array_remove", "Array_Inlined", "Array_PopIterate"].all (TransSl.translatedTargets.contains ·) = true := by decide
+
 end Atree.TransEq
